@@ -31,7 +31,7 @@ func init() {
 			"text/template + sprig, yaml.v3, encoding/json, magiconair/properties, regexp and the OS are parameters of the model: the harness feeds the model the renderer's / parser's / decoder's / matcher's actual results for the same inputs",
 			"list-item targets address an existing item or the position one past the end (no null padding of intermediate slots is counted as a frame change)",
 			"environment variable names are over [A-Za-z0-9_] (a dot or index group in a name is interpreted by AddValueAt as path syntax)",
-			"histories: a re-executed patch operation carries a leaf `value` or `valueFrom` (a composite `value` node is held by the operation object and placed without copying, so two executions would share it); export histories use template-free configuration and files inside the case's own directory"}})
+			"export histories use template-free configuration and files inside the case's own directory"}})
 	evals["C13"] = c13Eval
 	shrinkers["C13"] = shrinkJSON
 }
